@@ -26,22 +26,27 @@ def check(run, prog, tier):
         "written in the same vocabulary, numeric constant folding of the unit-system constants of "
         "core/units.py against scipy.constants, pairing rule for every element store into the "
         "coupling matrix, lexical rule that build() delegates to its implementation inside "
-        "energy_units('int'), and statement-level rules on the energy / coupling / dipole accessors "
-        "of aggregate states. The combinatorial structure of the state space is not decided.")
+        "energy_units('int'), and exhaustive finite evaluation (qv/feval.py: the source of coupling(), "
+        "transition_dipole(), _get_exindx() and ElectronicState.energy() is interpreted on every pair of "
+        "occupation signatures of up to 5 molecules in bands 0..2, with couplings, dipoles, level energies and "
+        "vibrational overlaps as opaque atoms) against the Frenkel-exciton statement written in the rule. "
+        "Beyond the bound the combinatorial structure is not decided; the generators of the state list are not "
+        "evaluated.")
     run.trusted_base = ["scipy.constants values", "1 D = 1e-21/c C m; lengths in Angstrom; energies in rad/fs"]
     run.rule("C03-A", "point-dipole interaction formula (TA)", minimum=2)
     run.rule("C03-B", "Coulomb constant in Debye/Angstrom/fs^-1 units (constant folding)", minimum=2)
     run.rule("C03-C", "coupling matrix is written symmetrically", minimum=2)
     run.rule("C03-D", "build runs under internal energy units", minimum=2)
-    run.rule("C03-E", "state energies, couplings and dipoles read the right molecules", minimum=6)
     rule_A(run, prog)
     rule_B(run, prog)
     rule_C(run, prog)
     rule_D(run, prog)
-    rule_E(run, prog)
     run.rule("C03-F", "coupling() between aggregate states: exhaustive finite evaluation over occupation "
                       "signatures (N <= 5 molecules, bands 0..2)", minimum=6)
     rule_F(run, prog)
+    run.rule("C03-G", "transition dipoles and state energies: exhaustive finite evaluation over occupation "
+                      "signatures", minimum=6)
+    rule_G(run, prog)
 
 
 def _signatures(n, mmax, total):
@@ -58,77 +63,174 @@ def _signatures(n, mmax, total):
     return out
 
 
+def eval_coupling(prog, kind, n, mmax):
+    """Interprets coupling() on every ordered pair of distinct states (bands 0..2) of n molecules with at
+    most mmax excitations per molecule; returns (deviations, number of pairs, number of states)."""
+    import math
+    from .. import feval
+    from ..feval import Stub, Sym, SymArr
+    c = prog.func(AB + "coupling")
+    params = [a.arg for a in c.node.args.args]
+    if params[:3] != ["self", "state1", "state2"]:
+        raise AnalysisError("coupling() signature changed: %s" % params)
+    fc = Sym(1.0, ("fc",))
+    selfo = Stub("AggregateBase", nmono=n, resonance_coupling=SymArr("J", symmetric=True))
+    selfo.methods = {"fc_factor": lambda a, b: fc, "convert_energy_2_current_u": lambda v: v}
+    states = []
+    for band in (0, 1, 2):
+        for sig in _signatures(n, mmax, band):
+            states.append((band, sig))
+    objs = []
+    for idx, (band, sig) in enumerate(states):
+        # one-exciton states are numbered 1..n in the order of the excited molecule
+        index = (sig.index(1) + 1) if band == 1 else idx
+        if band == 0:
+            index = 0
+        es = Stub("ElectronicState", band=band, elsignature=sig, index=index)
+        objs.append(es if kind == "ElectronicState" else Stub("VibronicState", elstate=es, index=idx))
+    bad = []
+    npairs = 0
+    for i, (b1, a) in enumerate(states):
+        for j, (b2, b) in enumerate(states):
+            if i == j:
+                continue
+            npairs += 1
+            ev = feval.Evaluator()
+            try:
+                args = {"self": selfo, "state1": objs[i], "state2": objs[j]}
+                for extra in c.node.args.args[3:]:
+                    dflt = c.node.args.defaults[len(c.node.args.defaults) - (len(c.node.args.args) - c.node.args.args.index(extra))]
+                    args[extra.arg] = ast.literal_eval(dflt)
+                got = ev.call_function(c.node, args)
+            except feval.Unsupported as e:
+                raise AnalysisError("coupling(): construct outside the finite evaluator's vocabulary: %s" % e)
+            except feval.Raised as e:
+                got = "raise %s" % e
+            diff = [k for k in range(n) if a[k] != b[k]]
+            moved = sum(abs(a[k] - b[k]) for k in range(n))
+            if b1 == b2 and b1 >= 1 and len(diff) == 2 and moved == 2:
+                exp = SymArr("J", symmetric=True).at(diff)
+                if kind == "VibronicState":
+                    exp = exp * fc
+                    if b1 >= 2:
+                        exp = exp * math.sqrt(max(a[diff[0]], b[diff[0]])) * math.sqrt(max(a[diff[1]], b[diff[1]]))
+            else:
+                exp = Sym(0.0)
+            if isinstance(got, (int, float)):
+                got = Sym(got)
+            if not isinstance(got, Sym) or not got.same(exp):
+                bad.append((a, b, repr(got), repr(exp)))
+    return bad, npairs, len(states)
+
+
 def rule_F(run, prog):
     """The element of the Hamiltonian between two aggregate states of the same band is J[k,l] (times the
     vibrational overlap, times the harmonic ladder factors for multiply excited molecules) when the
     two occupation signatures differ on exactly the molecules k and l by one quantum moved, and zero
     otherwise; states of different bands are not coupled.  coupling() is interpreted (qv/feval.py)
     on every pair of signatures up to the bound and compared with this statement."""
-    import math
-    from .. import feval
-    from ..feval import Stub, Sym, SymArr
     rid = "C03-F"
     c = prog.func(AB + "coupling")
-    params = [a.arg for a in c.node.args.args]
-    if params[:3] != ["self", "state1", "state2"]:
-        raise AnalysisError("coupling() signature changed: %s" % params)
-    fc = Sym(1.0, ("fc",))
     configs = [("ElectronicState", n, 1) for n in (2, 3, 4, 5)] + [("VibronicState", n, 1) for n in (2, 3, 4, 5)] + \
               [("VibronicState", n, 2) for n in (2, 3, 4)]
     for kind, n, mmax in configs:
-        selfo = Stub("AggregateBase", nmono=n, resonance_coupling=SymArr("J", symmetric=True))
-        selfo.methods = {"fc_factor": lambda a, b: fc, "convert_energy_2_current_u": lambda v: v}
-        states = []
-        for band in (0, 1, 2):
-            for sig in _signatures(n, mmax, band):
-                states.append((band, sig))
-        objs = []
-        for idx, (band, sig) in enumerate(states):
-            # one-exciton states are numbered 1..n in the order of the excited molecule
-            index = (sig.index(1) + 1) if band == 1 else idx
-            if band == 0:
-                index = 0
-            es = Stub("ElectronicState", band=band, elsignature=sig, index=index)
-            objs.append(es if kind == "ElectronicState" else Stub("VibronicState", elstate=es, index=idx))
-        bad = []
-        npairs = 0
-        for i, (b1, a) in enumerate(states):
-            for j, (b2, b) in enumerate(states):
-                if i == j:
-                    continue
-                npairs += 1
-                ev = feval.Evaluator()
-                try:
-                    args = {"self": selfo, "state1": objs[i], "state2": objs[j]}
-                    for extra in c.node.args.args[3:]:
-                        dflt = c.node.args.defaults[len(c.node.args.defaults) - (len(c.node.args.args) - c.node.args.args.index(extra))]
-                        args[extra.arg] = ast.literal_eval(dflt)
-                    got = ev.call_function(c.node, args)
-                except feval.Unsupported as e:
-                    raise AnalysisError("coupling(): construct outside the finite evaluator's vocabulary: %s" % e)
-                except feval.Raised as e:
-                    got = "raise %s" % e
-                diff = [k for k in range(n) if a[k] != b[k]]
-                moved = sum(abs(a[k] - b[k]) for k in range(n))
-                if b1 == b2 and b1 >= 1 and len(diff) == 2 and moved == 2:
-                    exp = SymArr("J", symmetric=True).at(diff)
-                    if kind == "VibronicState":
-                        exp = exp * fc
-                        if b1 >= 2:
-                            exp = exp * math.sqrt(max(a[diff[0]], b[diff[0]])) * math.sqrt(max(a[diff[1]], b[diff[1]]))
-                else:
-                    exp = Sym(0.0)
-                if isinstance(got, (int, float)):
-                    got = Sym(got)
-                if not isinstance(got, Sym) or not got.same(exp):
-                    bad.append((a, b, repr(got), repr(exp)))
+        bad, npairs, nstates = eval_coupling(prog, kind, n, mmax)
         run.obligation(rid, "AggregateBase.coupling", not bad,
                        key="finite:%s:N=%d:max-occupation=%d" % (kind, n, mmax),
                        message="coupling() deviates from 'J[k,l] between states that differ by one quantum moved "
                                "between molecules k and l, zero otherwise' on %d of %d pairs of %s signatures; first: "
                                "%s -> %s gives %s, expected %s" % ((len(bad), npairs, kind) + (bad[0] if bad else ("", "", "", ""))),
                        loc=c.loc(), sample={"kind": kind, "molecules": n, "max_occupation": mmax,
-                                            "states": len(states), "pairs": npairs})
+                                            "states": nstates, "pairs": npairs})
+
+
+def eval_transition_dipole(prog, n):
+    from .. import feval
+    from ..feval import Stub, Sym
+    td = prog.func(AB + "transition_dipole")
+    ex = prog.func(AB + "_get_exindx")
+    fc = Sym(1.0, ("fc",))
+    states = [(band, sig) for band in (0, 1, 2) for sig in _signatures(n, 1, band)]
+    selfo = Stub("AggregateBase", nmono=n)
+
+    def _exindx(a, b):
+        return feval.Evaluator().call_function(ex.node, {"self": selfo, "state1": a, "state2": b})
+    selfo.methods = {"fc_factor": lambda a, b: fc, "_get_exindx": _exindx,
+                     "get_dipole": lambda k, lo, hi: Sym(1.0, ("d%d[%d->%d]" % (k, lo, hi),))}
+    objs = [Stub("VibronicState", elstate=Stub("ElectronicState", band=b, elsignature=sig, index=i), index=i)
+            for i, (b, sig) in enumerate(states)]
+    bad = []
+    npairs = 0
+    for i, (b1, a) in enumerate(states):
+        for j, (b2, b) in enumerate(states):
+            npairs += 1
+            try:
+                got = feval.Evaluator().call_function(td.node, {"self": selfo, "state1": objs[i], "state2": objs[j]})
+            except feval.Unsupported as e:
+                raise AnalysisError("transition_dipole(): construct outside the finite evaluator's vocabulary: %s" % e)
+            except feval.Raised as e:
+                got = "raise %s" % e
+            diff = [k for k in range(n) if a[k] != b[k]]
+            if abs(b1 - b2) == 1 and len(diff) == 1:
+                exp = Sym(1.0, ("d%d[0->1]" % diff[0],)) * fc
+            else:
+                exp = Sym(0.0)
+            if isinstance(got, (int, float)):
+                got = Sym(got)
+            if not isinstance(got, Sym) or not got.same(exp):
+                bad.append((a, b, repr(got), repr(exp)))
+    return bad, npairs, len(states)
+
+
+def rule_G(run, prog):
+    """transition_dipole(s1, s2) is d_k (times the vibrational overlap) when the two states belong to
+    adjacent bands and their signatures differ on the single molecule k, and zero otherwise;
+    ElectronicState.energy is the sum over all molecules of the energy of the level each is in plus
+    the vibrational quanta.  Both are interpreted on every configuration up to the bound."""
+    from .. import feval
+    from ..feval import Stub, Sym, SymArr
+    rid = "C03-G"
+    td = prog.func(AB + "transition_dipole")
+    for n in (1, 2, 3, 4):
+        bad, npairs, nstates = eval_transition_dipole(prog, n)
+        run.obligation(rid, "AggregateBase.transition_dipole", not bad, key="finite:N=%d" % n,
+                       message="transition_dipole() deviates from 'dipole of the single molecule that changes state "
+                               "between adjacent bands, zero otherwise' on %d of %d pairs; first: %s -> %s gives %s, "
+                               "expected %s" % ((len(bad), npairs) + (bad[0] if bad else ("", "", "", ""))),
+                       loc=td.loc(), sample={"molecules": n, "states": nstates, "pairs": npairs})
+    en = prog.func("quantarhei.builders.aggregate_states.ElectronicState.energy")
+    for n, nmodes in ((1, 0), (2, 1), (3, 2), (4, 0)):
+        bad = []
+        ncfg = 0
+        for band in (0, 1, 2):
+            for sig in _signatures(n, 2, band):
+                modes = [Stub("SubMode", omega=Sym(1.0, ("w%d" % m_,))) for m_ in range(nmodes)]
+                agg = Stub("Aggregate", monomers=[Stub("Molecule", elenergies=SymArr("E%d" % k)) for k in range(n)])
+                so = Stub("ElectronicState", elsignature=sig, vibmodes=modes, vsiglength=nmodes, aggregate=agg)
+                so.methods = {"convert_energy_2_current_u": lambda v: v}
+                for vsig in ([None] + ([tuple(range(1, nmodes + 1))] if nmodes else [])):
+                    ncfg += 1
+                    try:
+                        got = feval.Evaluator().call_function(en.node, {"self": so, "vsig": vsig})
+                    except feval.Unsupported as e:
+                        raise AnalysisError("ElectronicState.energy: outside the finite evaluator's vocabulary: %s" % e)
+                    except feval.Raised as e:
+                        got = "raise %s" % e
+                    exp = Sym(0.0)
+                    for k in range(n):
+                        exp = exp + Sym(1.0, ("E%d[%d]" % (k, sig[k]),))
+                    if vsig is not None:
+                        for m_ in range(nmodes):
+                            exp = exp + Sym(float(vsig[m_]), ("w%d" % m_,))
+                    if isinstance(got, (int, float)):
+                        got = Sym(got)
+                    if not isinstance(got, Sym) or not got.same(exp):
+                        bad.append((sig, vsig, repr(got), repr(exp)))
+        run.obligation(rid, "ElectronicState.energy", not bad, key="finite:N=%d,modes=%d" % (n, nmodes),
+                       message="state energy deviates from 'sum over all molecules of the energy of the occupied level "
+                               "plus the vibrational quanta' on %d of %d configurations; first: signature %s, quanta %s "
+                               "gives %s, expected %s" % ((len(bad), ncfg) + (bad[0] if bad else ("", "", "", ""))),
+                       loc=en.loc(), sample={"molecules": n, "modes": nmodes, "configurations": ncfg})
 
 
 def rule_A(run, prog):
@@ -298,53 +400,3 @@ def rule_D(run, prog):
                    loc=prog.func(AB + "_build").loc(), sample={"callers": sorted(set(callers))})
 
 
-def rule_E(run, prog):
-    rid = "C03-E"
-    e = prog.func("quantarhei.builders.aggregate_states.ElectronicState.energy")
-    loops = [n for n in walk_no_nested(e.node) if isinstance(n, ast.For) and norm(n.iter) == "self.elsignature"]
-    ok = len(loops) == 1
-    if ok:
-        lp = loops[0]
-        v = lp.target.id
-        body = [norm(s) for s in lp.body]
-        ok = any(("self.aggregate.monomers[k].elenergies[%s]" % v) in s and s.startswith("en +=") for s in body) and \
-            "k += 1" in body and not any(isinstance(x, (ast.Break, ast.Continue, ast.If)) for x in ast.walk(lp) if x is not lp)
-        pre = [norm(s) for s in e.node.body if isinstance(s, ast.Assign)]
-        ok = ok and pre.count("k = 0") >= 1 and "en = 0.0" in pre
-    run.obligation(rid, "ElectronicState.energy", ok, key="sum-over-all-molecules",
-                   message="state energy must add elenergies[signature[k]] of every molecule k", loc=e.loc())
-    c = prog.func(AB + "coupling")
-    st = [norm(s) for s in ast.walk(c.node) if isinstance(s, ast.stmt)]
-    ok = "kk = state1.index - 1" in st and "ll = state2.index - 1" in st and "coup = self.resonance_coupling[kk, ll]" in st
-    run.obligation(rid, "AggregateBase.coupling", ok, key="one-exciton",
-                   message="one-exciton states i, j must be coupled by resonance_coupling[i-1, j-1]", loc=c.loc())
-    # two-exciton block: exactly two differing sites
-    ifs = [n for n in ast.walk(c.node) if isinstance(n, ast.If) and norm(n.test) == "k == 2"]
-    ok = len(ifs) >= 1 and all(["kk = sites[0]", "ll = sites[1]", "coup = self.resonance_coupling[kk, ll]"] ==
-                               [norm(s) for s in i.body] and [norm(s) for s in i.orelse] == ["coup = 0.0"] for i in ifs[:1])
-    run.obligation(rid, "AggregateBase.coupling", ok, key="two-exciton",
-                   message="states of the same band couple only when they differ on exactly two molecules", loc=c.loc())
-    ok = any(isinstance(n, ast.If) and norm(n.test) == "state1.band == state2.band" for n in ast.walk(c.node)) and \
-        st.count("coup = 0.0") >= 3
-    run.obligation(rid, "AggregateBase.coupling", ok, key="no-interband",
-                   message="states of different bands must not be coupled", loc=c.loc())
-    x = prog.func(AB + "_get_exindx")
-    st = [norm(s) for s in ast.walk(x.node) if isinstance(s, ast.stmt)]
-    cnt = [n for n in ast.walk(x.node) if isinstance(n, ast.If) and norm(n.test) == "count != 1"
-           and [norm(s) for s in n.body] == ["return -1"]]
-    ok = len(cnt) == 1 and "exindx = l" in st and "return exindx" in st
-    # exindx assigned under the difference test
-    asg = [n for n in ast.walk(x.node) if isinstance(n, ast.If) and norm(n.test) == "kk != els2[l]"
-           and any(norm(s) == "exindx = l" for s in n.body)]
-    ok = ok and len(asg) == 1
-    run.obligation(rid, "AggregateBase._get_exindx", ok, key="changing-molecule",
-                   message="the molecule of a transition must be the unique position where the signatures differ",
-                   loc=x.loc())
-    t = prog.func(AB + "transition_dipole")
-    st = [norm(s) for s in t.node.body]
-    ok = "exindx = self._get_exindx(state1, state2)" in st and "eldip = self.get_dipole(exindx, 0, 1)" in st and \
-        "return eldip * fcfac" in st and any(isinstance(n, ast.If) and norm(n.test) == "exindx < 0"
-                                             and [norm(s) for s in n.body] == ["return 0.0"] for n in t.node.body)
-    run.obligation(rid, "AggregateBase.transition_dipole", ok, key="dipole-of-changing-molecule",
-                   message="the transition dipole must be that of the molecule that changes state (times the "
-                           "vibrational overlap), zero otherwise", loc=t.loc())
